@@ -83,3 +83,41 @@ Proof.
     destruct (support_iter_bounds 0 0 (Z.le_refl 0) l o H Ho) as [[a [Ia Ea]] [b [Ib Eb]]].
     destruct (Hw a Ia), (Hw b Ib). lia.
 Qed.
+
+(* ---- eps > 0: duration() is at least the number of covered cells (gaps no longer than the
+        precision are bridged, nothing is lost) ---- *)
+Lemma count_mono lo n f g : (forall k, lo <= k < lo + Z.of_nat n -> f k = true -> g k = true) ->
+  count lo n f <= count lo n g.
+Proof.
+  revert lo. induction n as [|n IH]; intros lo H; cbn [count]; [lia|].
+  assert (IH' := IH (lo + 1) (fun k Hk => H k ltac:(lia))).
+  destruct (f lo) eqn:Ef; [rewrite (H lo ltac:(lia) Ef); lia | destruct (g lo); lia].
+Qed.
+Lemma canonical_of_separated_eps eps collar l : 0 <= eps ->
+  separated eps collar l -> Forall (ne eps) l -> canonical l.
+Proof.
+  intro Heps. induction l as [|a l IH]; intros Hs Hn; [exact I|].
+  inversion Hn as [|? ? Ha Hn']; subst. apply ne_gt in Ha. simpl. repeat split; [lia| |].
+  - destruct l as [|b r]; [exact I|]. destruct Hs as [H _]. unfold th in H. lia.
+  - apply IH; [|assumption]. destruct l; simpl in *; tauto.
+Qed.
+Lemma sum_durations_nonempty eps l : 0 <= eps -> Forall (ne eps) l -> sum_durations eps l = sum_durations 0 l.
+Proof.
+  intro Heps. induction l as [|s l IH]; intro H; [reflexivity|]. inversion H as [|? ? Hs H']; subst.
+  rewrite !sum_durations_cons, (IH H'). apply ne_gt in Hs as G. unfold duration, nonempty. unfold ne in Hs. 
+  destruct (en s - st s >? eps) eqn:E1; destruct (en s - st s >? 0) eqn:E2; lia.
+Qed.
+
+Theorem duration_at_least_measure eps l lo n : 0 <= eps -> wf eps l ->
+  (forall s, In s l -> lo <= st s /\ en s <= lo + Z.of_nat n) ->
+  measure lo n l <= tl_duration eps l.
+Proof.
+  intros Heps H Hw. unfold tl_duration.
+  destruct (support_iter_separated eps 0 Heps l H) as [Hs Hn].
+  rewrite (sum_durations_nonempty eps _ Heps Hn).
+  rewrite (canonical_measure _ lo n (canonical_of_separated_eps eps 0 _ Heps Hs Hn)).
+  - unfold measure. apply count_mono. intros k _ Hk. apply cellsb_iff. apply cellsb_iff in Hk.
+    now apply (support_iter_cover_complete eps 0 Heps l k H).
+  - intros o Ho. destruct (support_iter_bounds eps 0 Heps l o H Ho) as [[a [Ia Ea]] [b [Ib Eb]]].
+    destruct (Hw a Ia), (Hw b Ib). lia.
+Qed.
